@@ -514,9 +514,11 @@ class Queue(Greenlet):
             try:
                 now = time.time()
                 self._check_ready(now)
-                self._wait_ready(now)
             finally:
                 self.queued_lock.release()
+            # Wait without holding the lock, so that flush() never has to
+            # wait for the scheduler to wake up.
+            self._wait_ready(now)
 
 
 # vim:et:fdm=marker:sts=4:sw=4:ts=4
